@@ -71,7 +71,9 @@ def member(draw, ts, vals_pts, z_pts):
             a, b = epoch(2017, 1, 1), epoch(2023, 12, 31)
         m["period"] = None
         m["tspan"] = [a, b]
-        m["tspan_as"] = draw(st.sampled_from(["iso", "ts", "dt64"]))
+        # (any spelling pd.Timestamp understands: ISO, US month/day/year, unpadded, day-month-name; datetime64 of the
+        # coarsest unit that holds the instant)
+        m["tspan_as"] = draw(st.sampled_from(["iso", "ts", "dt64", "us", "loose", "dmy", "dt64coarse"]))
     v = st.one_of(st.sampled_from(vals_pts), gen.dyadic(3, -16, 16)) if vals_pts else gen.dyadic(3, -16, 16)
     a, b = draw(v), draw(v)
     m["vspan"] = [a, b]
@@ -120,7 +122,14 @@ def clim_case(draw, tier="quick"):
             if draw(st.integers(0, 2)) == 0:
                 x[i] = draw(st.sampled_from(bounds)) + draw(st.sampled_from([0.0, 0.0, Q, -Q]))
     x = draw(gen.overlay_missing(x))
-    return {"x": x, "t": ts, "z": z, "members": members, "tc": draw(st.sampled_from(["dt64", "dt64", "epoch", "epoch32"])),
+    tc = draw(st.sampled_from(["dt64", "dt64", "epoch", "epoch32"]))
+    if n and draw(st.integers(0, 3)) == 0:
+        # observations between the whole seconds the spans are written in (strictly increasing is kept: shifts < 1 s
+        # of distinct whole seconds; equal instants get equal shifts)
+        sh = {v: draw(st.sampled_from([0.0, 0.125, 0.5, 0.875])) for v in sorted(set(ts))}
+        ts = [v + sh[v] if sh[v] else v for v in ts]
+        tc = "dt64"
+    return {"x": x, "t": ts, "z": z, "members": members, "tc": tc,
             "cfg": draw(st.sampled_from(["dicts", "object"]))}
 
 
@@ -137,7 +146,18 @@ def render_members(members):
             cv = []
             for e in m["tspan"]:
                 dt = dtm.datetime(1970, 1, 1) + dtm.timedelta(seconds=int(e))
-                cv.append(dt.isoformat() if how == "iso" else pd.Timestamp(dt) if how == "ts" else np.datetime64(dt, "s"))
+                if how == "us":
+                    cv.append(f"{dt.month}/{dt.day}/{dt.year} {dt.hour:02d}:{dt.minute:02d}:{dt.second:02d}")
+                elif how == "loose":
+                    cv.append(f"{dt.year}-{dt.month}-{dt.day} {dt.hour}:{dt.minute}:{dt.second}")
+                elif how == "dmy":
+                    cv.append(f"{dt.day} {dt.strftime('%b')} {dt.year} {dt.hour:02d}:{dt.minute:02d}:{dt.second:02d}")
+                elif how == "dt64coarse":
+                    e_ = int(e)
+                    unit = "D" if e_ % 86400 == 0 else "h" if e_ % 3600 == 0 else "m" if e_ % 60 == 0 else "s"
+                    cv.append(np.datetime64(dt, unit))
+                else:
+                    cv.append(dt.isoformat() if how == "iso" else pd.Timestamp(dt) if how == "ts" else np.datetime64(dt, "s"))
             d["tspan"] = tuple(cv)
         if m.get("fspan") is not None:
             d["fspan"] = tuple(m["fspan"])
@@ -173,8 +193,15 @@ def check_clim(case, rec):
                                   ("iso_week_edge", iso_edge), ("depth_missing_with_zspan", zmiss),
                                   ("has_periodic", any(m.get("period") for m in members)),
                                   ("no_members", not members), ("value_missing", any(model.miss(v) for v in x))) if on]
+    if any(float(v) != int(v) for v in t):
+        labels.append("subsecond_times")
+    forms = sorted({m.get("tspan_as") for m in members if not m.get("period")} - {None, "iso", "ts", "dt64"})
+    labels += [f"tspan_as={f}" for f in forms]
     rec.note(n > 0 and (multi or on_v or on_t or iso_edge or zmiss), labels)
     tt = np.array(t, dtype="int64") if case["tc"] == "epoch" else (epoch32(t) if case["tc"] == "epoch32" else tarr(t))
+    if any(float(v) != int(v) for v in t):
+        from .. import carriers
+        tt = carriers.time(t, "dt64ns")
     site = "qartod.climatology_test"
     cfg = rec.call(site + "(config)", build_config, case)
     if cfg is SKIP:
